@@ -325,6 +325,31 @@ acquire_configure(struct AcquireRuntime* self_,
            "Invalid parameter. Expected AcquireProperties* but got NULL.");
     self = containerof(self_, struct runtime, handle);
     EXPECT(self->state != DeviceState_Closed, "Device state is Closed.");
+    // Selecting another device closes the one that is open. That must not
+    // happen under the worker threads of a running acquisition: wind the
+    // acquisition down first.
+    for (uint32_t istream = 0; istream < countof(self->video); ++istream) {
+        const struct video_s* const video = self->video + istream;
+        const struct aq_properties_video_s* const pvideo =
+          settings->video + istream;
+        const int is_alive = video->source.is_running ||
+                             video->filter.is_running || video->sink.is_running;
+        const int camera_changes =
+          video->source.camera &&
+          (video->source.last_camera_id.driver_id !=
+             pvideo->camera.identifier.driver_id ||
+           video->source.last_camera_id.device_id !=
+             pvideo->camera.identifier.device_id);
+        const int storage_changes =
+          video->sink.storage && (video->sink.identifier.driver_id !=
+                                    pvideo->storage.identifier.driver_id ||
+                                  video->sink.identifier.device_id !=
+                                    pvideo->storage.identifier.device_id);
+        if (is_alive && (camera_changes || storage_changes)) {
+            acquire_abort(self_);
+            break;
+        }
+    }
     self->valid_video_streams = 0;
     for (uint32_t istream = 0; istream < countof(self->video); ++istream) {
         if (video_stream_requirements_check(settings->video + istream)) {
